@@ -399,4 +399,438 @@ theorem topGetRun_split (c' : List Char) (fut' : List (List Char)) :
           rw [hrb]
           exact topGetRun_fuel _ _ _ z2 (by omega) (Nat.lt_succ_self _)
 
+/-! ### splitting a run at the first delivery -/
+
+/-- **A run with pieces still to come, split at the first delivery.** If the program, on the state
+without the future pieces (what one `ParseTokens` call executes), comes to rest for lack of input
+(`suspendA` on the view: in a blocked yield, or at a top level that answers `done`), then the run on
+the state WITH the future pieces is: that run up to the rest, the delivery of the next piece with
+the status of the rest recorded, and the run of the program it rests in. -/
+theorem run_split {α : Type} (c' : List Char) (fut' : List (List Char)) (Q : SProg α) :
+    ∀ (s : PState), Inv s → s.lex.finished = false → s.fut = c' :: fut' →
+    ∀ (e : Bool) (κ : SProg α) (v' : View), suspendA Q (view s.base) = some (e, κ, v') →
+    ∃ s1 : PState, s1.fut = [] ∧ s1.eof = false ∧ s1.trace = [] ∧ view s1 = v' ∧
+      (e = false → run Q.erase s.base = (.stop .more, s1)) ∧
+      (∀ k, e = true → κ = .topGet k → run Q.erase s.base = run (k none).erase s1) ∧
+      run Q.erase s = run κ.erase ((s.restore s1).deliver c' fut' (if e then .done else .more)) := by
+  induction Q with
+  | pure a => intro s _ _ _ e κ v' h; simp [suspendA] at h
+  | fail => intro s _ _ _ e κ v' h; simp [suspendA] at h
+  | waitPeek n k ih =>
+    intro s hi hfin hfut e κ v' h
+    have hbi : Inv s.base := hi
+    have hfuel : peekWaitRun false n (s.size + 1) s.base = peekWaitRun false n (s.base.size + 1) s.base :=
+      peekWaitRun_fuel false n _ _ s.base hbi (by have := s.base_size_le; omega) (Nat.lt_succ_self _)
+    have hsplit := peekWaitRun_split false n c' fut' (s.size + 1) s hi (Nat.lt_succ_self _) hfin hfut _ hfuel
+    have hsim := peekWait_sim false n (s.base.size + 1) s.base hbi (Nat.lt_succ_self _)
+    have hg := peekWaitRun_ghost false n (s.base.size + 1) s.base rfl
+    have hv := view_fields s.base
+    simp only [suspendA, hv.1, hv.2.1, hv.2.2.1, hv.2.2.2, ← hsim.1] at h
+    simp only [SProg.erase, run]
+    cases hpw : peekWaitRun false n (s.base.size + 1) s.base with
+    | tok t s1 =>
+      rw [hpw] at hsplit hsim hg h
+      simp only [PeekOut.toA] at h
+      simp only at hsplit
+      have hinv1 : Inv s1 := hsim.2
+      have g : Ghost s.base s1 := hg
+      have hfin1 : s1.lex.finished = false := g.2.2.2.trans hfin
+      have hb : (s.restore s1).base = s1 := PState.base_restore s s1 g.1 g.2.1 g.2.2.1
+      obtain ⟨s2, f1, f2, f3, f4, f5, f6, f7⟩ := ih t (s.restore s1) hinv1 hfin1 hfut e κ v' (by rw [hb]; exact h)
+      rw [hb] at f5 f6
+      refine ⟨s2, f1, f2, f3, f4, f5, f6, ?_⟩
+      rw [hsplit]
+      exact f7
+    | stop st s1 =>
+      rw [hpw] at hsplit hg h
+      simp only [PeekOut.toA] at h
+      have g : Ghost s.base s1 := hg
+      cases st with
+      | more =>
+        simp only [Option.some.injEq, Prod.mk.injEq] at h
+        obtain ⟨rfl, rfl, rfl⟩ := h
+        simp only at hsplit
+        refine ⟨s1, g.1, g.2.1, g.2.2.1, rfl, fun _ => rfl, fun k' h' => by simp at h', ?_⟩
+        simp only [Bool.false_eq_true, ↓reduceIte, hsplit, SProg.erase, run]
+      | done => simp at h
+      | err => simp at h
+  | waitLoop on k _ ih =>
+    intro s hi hfin hfut e κ v' h
+    have hbi : Inv s.base := hi
+    have hfuel : peekWaitRun false 0 (s.size + 1) s.base = peekWaitRun false 0 (s.base.size + 1) s.base :=
+      peekWaitRun_fuel false 0 _ _ s.base hbi (by have := s.base_size_le; omega) (Nat.lt_succ_self _)
+    have hsplit := peekWaitRun_split false 0 c' fut' (s.size + 1) s hi (Nat.lt_succ_self _) hfin hfut _ hfuel
+    have hsim := peekWait_sim false 0 (s.base.size + 1) s.base hbi (Nat.lt_succ_self _)
+    have hg := peekWaitRun_ghost false 0 (s.base.size + 1) s.base rfl
+    have hv := view_fields s.base
+    simp only [suspendA, hv.1, hv.2.1, hv.2.2.1, hv.2.2.2, ← hsim.1] at h
+    simp only [SProg.erase, run]
+    cases hpw : peekWaitRun false 0 (s.base.size + 1) s.base with
+    | tok t s1 =>
+      rw [hpw] at hsplit hsim hg h
+      simp only [PeekOut.toA] at h
+      simp only at hsplit
+      have hinv1 : Inv s1 := hsim.2
+      have g : Ghost s.base s1 := hg
+      have hfin1 : s1.lex.finished = false := g.2.2.2.trans hfin
+      have hb : (s.restore s1).base = s1 := PState.base_restore s s1 g.1 g.2.1 g.2.2.1
+      obtain ⟨s2, f1, f2, f3, f4, f5, f6, f7⟩ := ih t (s.restore s1) hinv1 hfin1 hfut e κ v' (by rw [hb]; exact h)
+      rw [hb] at f5 f6
+      refine ⟨s2, f1, f2, f3, f4, f5, f6, ?_⟩
+      rw [hsplit]
+      exact f7
+    | stop st s1 =>
+      rw [hpw] at hsplit hg h
+      simp only [PeekOut.toA] at h
+      have g : Ghost s.base s1 := hg
+      cases st with
+      | more =>
+        simp only [Option.some.injEq, Prod.mk.injEq] at h
+        obtain ⟨rfl, rfl, rfl⟩ := h
+        simp only at hsplit
+        refine ⟨s1, g.1, g.2.1, g.2.2.1, rfl, fun _ => rfl, fun k' h' => by simp at h', ?_⟩
+        simp only [Bool.false_eq_true, ↓reduceIte, hsplit, SProg.erase, run]
+      | done => simp at h
+      | err => simp at h
+  | signPeek k ih =>
+    intro s hi hfin hfut e κ v' h
+    have hbi : Inv s.base := hi
+    have hfuel : peekWaitRun true 0 (s.size + 1) s.base = peekWaitRun true 0 (s.base.size + 1) s.base :=
+      peekWaitRun_fuel true 0 _ _ s.base hbi (by have := s.base_size_le; omega) (Nat.lt_succ_self _)
+    have hsplit := peekWaitRun_split true 0 c' fut' (s.size + 1) s hi (Nat.lt_succ_self _) hfin hfut _ hfuel
+    have hsim := peekWait_sim true 0 (s.base.size + 1) s.base hbi (Nat.lt_succ_self _)
+    have hg := peekWaitRun_ghost true 0 (s.base.size + 1) s.base rfl
+    have hv := view_fields s.base
+    simp only [suspendA, hv.1, hv.2.1, hv.2.2.1, hv.2.2.2, ← hsim.1] at h
+    simp only [SProg.erase, run]
+    cases hpw : peekWaitRun true 0 (s.base.size + 1) s.base with
+    | tok t s1 =>
+      rw [hpw] at hsplit hsim hg h
+      simp only [PeekOut.toA] at h
+      simp only at hsplit
+      have hinv1 : Inv s1 := hsim.2
+      have g : Ghost s.base s1 := hg
+      have hfin1 : s1.lex.finished = false := g.2.2.2.trans hfin
+      have hb : (s.restore s1).base = s1 := PState.base_restore s s1 g.1 g.2.1 g.2.2.1
+      obtain ⟨s2, f1, f2, f3, f4, f5, f6, f7⟩ := ih t (s.restore s1) hinv1 hfin1 hfut e κ v' (by rw [hb]; exact h)
+      rw [hb] at f5 f6
+      refine ⟨s2, f1, f2, f3, f4, f5, f6, ?_⟩
+      rw [hsplit]
+      exact f7
+    | stop st s1 =>
+      rw [hpw] at hsplit hg h
+      simp only [PeekOut.toA] at h
+      have g : Ghost s.base s1 := hg
+      cases st with
+      | more =>
+        simp only [Option.some.injEq, Prod.mk.injEq] at h
+        obtain ⟨rfl, rfl, rfl⟩ := h
+        simp only at hsplit
+        refine ⟨s1, g.1, g.2.1, g.2.2.1, rfl, fun _ => rfl, fun k' h' => by simp at h', ?_⟩
+        simp only [Bool.false_eq_true, ↓reduceIte, hsplit, SProg.erase, run]
+      | done => simp at h
+      | err => simp at h
+  | peekAt n k ih =>
+    intro s hi hfin hfut e κ v' h
+    have hbi : Inv s.base := hi
+    have hfuel : peekWaitRun false n (s.size + 1) s.base = peekWaitRun false n (s.base.size + 1) s.base :=
+      peekWaitRun_fuel false n _ _ s.base hbi (by have := s.base_size_le; omega) (Nat.lt_succ_self _)
+    have hsplit := peekWaitRun_split false n c' fut' (s.size + 1) s hi (Nat.lt_succ_self _) hfin hfut _ hfuel
+    have hsim := peekWait_sim false n (s.base.size + 1) s.base hbi (Nat.lt_succ_self _)
+    have hg := peekWaitRun_ghost false n (s.base.size + 1) s.base rfl
+    have hv := view_fields s.base
+    simp only [suspendA, hv.1, hv.2.1, hv.2.2.1, hv.2.2.2, ← hsim.1] at h
+    simp only [SProg.erase, run]
+    cases hpw : peekWaitRun false n (s.base.size + 1) s.base with
+    | tok t s1 =>
+      rw [hpw] at hsplit hsim hg h
+      simp only [PeekOut.toA] at h
+      simp only at hsplit
+      have hinv1 : Inv s1 := hsim.2
+      have g : Ghost s.base s1 := hg
+      have hfin1 : s1.lex.finished = false := g.2.2.2.trans hfin
+      have hb : (s.restore s1).base = s1 := PState.base_restore s s1 g.1 g.2.1 g.2.2.1
+      have ht : (view s1).core.tokens = s1.lex.tokens := rfl
+      rw [ht] at h
+      rw [hsplit]
+      simp only
+      have ht2 : (s.restore s1).lex.tokens = s1.lex.tokens := rfl
+      rw [ht2]
+      cases hq : s1.lex.tokens[n]? with
+      | none => simp [hq] at h
+      | some t' =>
+        simp only [hq] at h ⊢
+        obtain ⟨s2, f1, f2, f3, f4, f5, f6, f7⟩ := ih t' (s.restore s1) hinv1 hfin1 hfut e κ v' (by rw [hb]; exact h)
+        rw [hb] at f5 f6
+        exact ⟨s2, f1, f2, f3, f4, f5, f6, f7⟩
+    | stop st s1 =>
+      rw [hpw] at hsplit hg h
+      simp only [PeekOut.toA] at h
+      have g : Ghost s.base s1 := hg
+      cases st with
+      | more =>
+        simp only [Option.some.injEq, Prod.mk.injEq] at h
+        obtain ⟨rfl, rfl, rfl⟩ := h
+        simp only at hsplit
+        refine ⟨s1, g.1, g.2.1, g.2.2.1, rfl, fun _ => rfl, fun k' h' => by simp at h', ?_⟩
+        simp only [Bool.false_eq_true, ↓reduceIte, hsplit, SProg.erase, run]
+      | done => simp at h
+      | err => simp at h
+  | getTok k ih =>
+    intro s hi hfin hfut e κ v' h
+    have hbi : Inv s.base := hi
+    have hfuel : peekWaitRun false 0 (s.size + 1) s.base = peekWaitRun false 0 (s.base.size + 1) s.base :=
+      peekWaitRun_fuel false 0 _ _ s.base hbi (by have := s.base_size_le; omega) (Nat.lt_succ_self _)
+    have hsplit := peekWaitRun_split false 0 c' fut' (s.size + 1) s hi (Nat.lt_succ_self _) hfin hfut _ hfuel
+    have hsim := peekWait_sim false 0 (s.base.size + 1) s.base hbi (Nat.lt_succ_self _)
+    have hg := peekWaitRun_ghost false 0 (s.base.size + 1) s.base rfl
+    have hv := view_fields s.base
+    simp only [suspendA, hv.1, hv.2.1, hv.2.2.1, hv.2.2.2, ← hsim.1] at h
+    simp only [SProg.erase, run]
+    cases hpw : peekWaitRun false 0 (s.base.size + 1) s.base with
+    | tok t s1 =>
+      rw [hpw] at hsplit hsim hg h
+      simp only [PeekOut.toA] at h
+      simp only at hsplit
+      have hinv1 : Inv s1 := hsim.2
+      have g : Ghost s.base s1 := hg
+      have hfin1 : s1.lex.finished = false := g.2.2.2.trans hfin
+      have hb : (s.restore ({ s1 with lex := { s1.lex with tokens := s1.lex.tokens.tail } } : PState)).base =
+          ({ s1 with lex := { s1.lex with tokens := s1.lex.tokens.tail } } : PState) :=
+        PState.base_restore s _ g.1 g.2.1 g.2.2.1
+      obtain ⟨s2, f1, f2, f3, f4, f5, f6, f7⟩ := ih t (s.restore ({ s1 with lex := { s1.lex with tokens := s1.lex.tokens.tail } } : PState))
+        (by simpa [Inv, PState.restore] using hinv1) hfin1 hfut e κ v'
+        (by rw [hb]; simpa [view, runes_of_pending, LexState.pending, PState.willFinish] using h)
+      rw [hb] at f5 f6
+      refine ⟨s2, f1, f2, f3, f4, f5, f6, ?_⟩
+      rw [hsplit]
+      exact f7
+    | stop st s1 =>
+      rw [hpw] at hsplit hg h
+      simp only [PeekOut.toA] at h
+      have g : Ghost s.base s1 := hg
+      cases st with
+      | more =>
+        simp only [Option.some.injEq, Prod.mk.injEq] at h
+        obtain ⟨rfl, rfl, rfl⟩ := h
+        simp only at hsplit
+        refine ⟨s1, g.1, g.2.1, g.2.2.1, rfl, fun _ => rfl, fun k' h' => by simp at h', ?_⟩
+        simp only [Bool.false_eq_true, ↓reduceIte, hsplit, SProg.erase, run]
+      | done => simp at h
+      | err => simp at h
+  | topGet k ih =>
+    intro s hi hfin hfut e κ v' h
+    have hbi : Inv s.base := hi
+    have hfuel : topGetRun (s.size + 1) s.base = topGetRun (s.base.size + 1) s.base :=
+      topGetRun_fuel _ _ s.base hbi (by have := s.base_size_le; omega) (Nat.lt_succ_self _)
+    have hsplit := topGetRun_split c' fut' (s.size + 1) s hi (Nat.lt_succ_self _) hfin hfut _ hfuel
+    have hsim := topGet_sim (s.base.size + 1) s.base hbi (Nat.lt_succ_self _)
+    have hg := topGetRun_ghost (s.base.size + 1) s.base rfl
+    have hv := view_fields s.base
+    simp only [suspendA, hv.1, hv.2.1, hv.2.2.1, hv.2.2.2, ← hsim.1] at h
+    simp only [SProg.erase, run]
+    cases hpw : topGetRun (s.base.size + 1) s.base with
+    | tok t s1 =>
+      rw [hpw] at hsplit hsim hg h
+      simp only [TopOut.toA] at h
+      simp only at hsplit
+      have hinv1 : Inv s1 := hsim.2
+      have g : Ghost s.base s1 := hg
+      have hfin1 : s1.lex.finished = false := g.2.2.2.trans hfin
+      have hb : (s.restore s1).base = s1 := PState.base_restore s s1 g.1 g.2.1 g.2.2.1
+      obtain ⟨s2, f1, f2, f3, f4, f5, f6, f7⟩ := ih (some t) (s.restore s1) hinv1 hfin1 hfut e κ v' (by rw [hb]; exact h)
+      rw [hb] at f5 f6
+      refine ⟨s2, f1, f2, f3, f4, f5, f6, ?_⟩
+      rw [hsplit]
+      exact f7
+    | finished st s1 =>
+      rw [hpw] at hsplit hg h
+      simp only [TopOut.toA] at h
+      have g : Ghost s.base s1 := hg
+      cases st with
+      | more =>
+        simp only [Option.some.injEq, Prod.mk.injEq] at h
+        obtain ⟨rfl, rfl, rfl⟩ := h
+        simp only at hsplit
+        refine ⟨s1, g.1, g.2.1, g.2.2.1, rfl, fun _ => rfl, fun k' h' => by simp at h', ?_⟩
+        simp only [Bool.false_eq_true, ↓reduceIte, hsplit, SProg.erase, run]
+      | done =>
+        simp only [Option.some.injEq, Prod.mk.injEq] at h
+        obtain ⟨rfl, rfl, rfl⟩ := h
+        simp only at hsplit
+        refine ⟨s1, g.1, g.2.1, g.2.2.1, rfl, fun h' => by simp at h', ?_, ?_⟩
+        · intro k' _ hk
+          simp only [SProg.topGet.injEq] at hk
+          subst hk
+          rfl
+        · simp only [↓reduceIte, hsplit, SProg.erase, run]
+      | err => simp at h
+  | pushTok t k ih =>
+    intro s hi hfin hfut e κ v' h
+    simp only [suspendA] at h
+    obtain ⟨s2, f1, f2, f3, f4, f5, f6, f7⟩ :=
+      ih ({ s with lex := { s.lex with tokens := t :: s.lex.tokens } } : PState) (by simpa [Inv] using hi) hfin hfut e κ v'
+        (by simpa [view, PState.base, runes_of_pending, LexState.pending, PState.willFinish] using h)
+    exact ⟨s2, f1, f2, f3, f4, f5, f6, f7⟩
+  | pushExpr e' k ih =>
+    intro s hi hfin hfut e κ v' h
+    simp only [suspendA] at h
+    obtain ⟨s2, f1, f2, f3, f4, f5, f6, f7⟩ :=
+      ih ({ s with exprs := s.exprs ++ [e'] } : PState) (by simpa [Inv] using hi) hfin hfut e κ v'
+        (by simpa [view, PState.base, runes_of_pending, PState.willFinish] using h)
+    exact ⟨s2, f1, f2, f3, f4, f5, f6, f7⟩
+
+/-! ### the protocol against the delivery model, call by call, on the concrete states -/
+
+/-- one `ParseTokens` call and the rest of the delivery (the common shape of `parseBy` and
+`deliverRest`) -/
+def callThen (F : Nat) (p' : PSt) (tr : List Status) (rest : List (List Char)) : Result × PSt :=
+  if (p'.parseTokens F).1 == .err then
+    (⟨(p'.parseTokens F).1, (p'.parseTokens F).2.1, tr.reverse⟩, (p'.parseTokens F).2.2)
+  else (p'.parseTokens F).2.2.deliverRest F ((p'.parseTokens F).1 :: tr) rest
+
+theorem deliverRest_cons_eq (F : Nat) (p : PSt) (tr : List Status) (c : List Char) (rest : List (List Char)) :
+    p.deliverRest F tr (c :: rest) = callThen F (p.newInput c) tr rest := rfl
+
+theorem parseBy_cons_callThen (F : Nat) (p : PSt) (c : List Char) (rest : List (List Char)) :
+    p.parseBy F .resetAdd (c :: rest) = callThen F (p.resetAddNewInput c) [] rest := rfl
+
+theorem view_of_base (t : PState) (c : List Char) (fut' : List (List Char)) (hfin : t.lex.finished = false)
+    (heof : t.eof = true) (hfut : t.fut = c :: fut') :
+    (view t.base).fin = false ∧
+    view t = ⟨(view t.base).core, (view t.base).runes ++ (c :: fut').flatten, (view t.base).exprs, true⟩ := by
+  simp [view, PState.base, PState.runes, PState.willFinish, hfut, heof, hfin]
+
+/-- **The first call.** The delivery model is at a state `t` with the piece `c` next to be
+delivered (and not an error in the end); the protocol is at the state with the same lexer and reply.
+The `ParseTokens` call answers `st` (not an error), and the run of the delivery model is: deliver
+`c`, record `st`, and run the program the protocol now holds. -/
+theorem first_step (F : Nat) (t : PState) (co : Option Co) (c : List Char) (fut' : List (List Char))
+    (hco : co ≠ some .finalYield) (hTL : TL F (progOf F co)) (hi : Inv t) (hfin : t.lex.finished = false)
+    (heof : t.eof = true) (hfut : t.fut = c :: fut') (hne : (run (progOf F co).erase t).1 ≠ .stop .err) :
+    ∃ (st : Status) (co' : Option Co) (s1 : PState), st ≠ .err ∧
+      PSt.parseTokens F ⟨t.lex, t.exprs, co⟩ = (st, s1.exprs, ⟨s1.lex, s1.exprs, co'⟩) ∧
+      co' ≠ some .finalYield ∧ TL F (progOf F co') ∧ s1.lex.pending = [] ∧
+      run (progOf F co).erase t = run (progOf F co').erase ((t.restore s1).deliver c fut' st) := by
+  obtain ⟨hvfin, hvt⟩ := view_of_base t c fut' hfin heof hfut
+  obtain ⟨sl1, sl2, sl3⟩ := SL_of_TL F _ hTL (view t.base)
+  have hpt := parseTokens_eq F ⟨t.lex, t.exprs, co⟩ hco
+  have hps : (⟨t.lex, t.exprs, co⟩ : PSt).pstate = t.base := rfl
+  rw [hps] at hpt
+  simp only at hpt
+  cases hs : suspendA (progOf F co) (view t.base) with
+  | none =>
+    exfalso
+    apply hne
+    rw [(run_view _ t hi).1, hvt, suspendA_none_append _ _ hvfin hs]
+    exact sl3 hs
+  | some x =>
+    obtain ⟨e, κ, v'⟩ := x
+    obtain ⟨s1, g1, g2, g3, g4, g5, g6, g7⟩ := run_split c fut' _ t hi hfin hfut e κ v' hs
+    obtain ⟨q1, _⟩ := resume_is_rest_of_run _ _ hvfin e κ v' hs
+    have hpend : s1.lex.pending = [] := by
+      have : (view s1).runes = [] := by rw [g4]; exact q1
+      exact (List.append_eq_nil_iff.mp this).1
+    cases e with
+    | false =>
+      have hres := (residual_of_suspendA _ t.base hi κ v' hs).1
+      rw [g5 rfl, hres] at hpt
+      refine ⟨.more, some (.waiting κ), s1, by simp, hpt, by simp, sl2 κ v' hs, hpend, ?_⟩
+      simpa [progOf] using g7
+    | true =>
+      obtain ⟨⟨f, hf, rfl⟩, _⟩ := sl1 κ v' hs
+      have hrun := g6 _ rfl (topLoop_succ_eq f)
+      simp only [SProg.erase, run] at hrun
+      rw [hrun] at hpt
+      refine ⟨.done, none, s1, by simp, hpt, by simp, .top F (Nat.le_refl _), hpend, ?_⟩
+      simp only [↓reduceIte] at g7
+      rw [g7] at hne ⊢
+      simp only [progOf, erase_topLoop] at hne ⊢
+      exact (Parser.run_fuel_mono (f + 1) F hf _ hne).symm
+
+theorem finished_false_eq (l : LexState) (h : l.finished = false) : ({ l with finished := false } : LexState) = l := by
+  cases l; simp_all
+
+/-- **The recorded statuses.** From a state of the delivery model with the pieces `rest` (and the
+end of the input) still to come, and the protocol at the state with the same lexer and reply: what
+the delivery model records from here on is what the calls of the protocol answer from here on. -/
+theorem chunk_trace (F : Nat) : ∀ (rest : List (List Char)) (t : PState) (co : Option Co) (tr : List Status),
+    co ≠ some .finalYield → TL F (progOf F co) → Inv t → t.lex.finished = false → t.eof = true →
+    t.fut = rest ++ [eofPiece] → (run (progOf F co).erase t).1 ≠ .stop .err →
+    ∃ X, (run (progOf F co).erase t).2.trace = t.trace ++ X ∧
+      (callThen F ⟨t.lex, t.exprs, co⟩ tr rest).1.trace = tr.reverse ++ X := by
+  intro rest
+  induction rest with
+  | nil =>
+    intro t co tr hco hTL hi hfin heof hfut hne
+    obtain ⟨st, co', s1, h1, h2, h3, h4, h5, h6⟩ := first_step F t co eofPiece [] hco hTL hi hfin heof hfut hne
+    refine ⟨[st], ?_, ?_⟩
+    · rw [h6]
+      have g := run_ghost (progOf F co').erase ((t.restore s1).deliver eofPiece [] st) rfl
+      rw [g.2.2.1]
+      rfl
+    · have hb : (st == Status.err) = false := by cases st <;> simp_all
+      simp [callThen, h2, hb, PSt.deliverRest]
+  | cons c rest ih =>
+    intro t co tr hco hTL hi hfin heof hfut hne
+    obtain ⟨st, co', s1, h1, h2, h3, h4, h5, h6⟩ :=
+      first_step F t co c (rest ++ [eofPiece]) hco hTL hi hfin heof hfut hne
+    obtain ⟨a1, a2, a3, a4⟩ := addNextStream_read s1.lex c h5
+    have hlex : ((t.restore s1).deliver c (rest ++ [eofPiece]) st).lex = s1.lex.addNextStream c := by
+      simp only [PState.deliver, PState.restore, heof]
+      have : (rest ++ [eofPiece]).isEmpty = false := by cases rest <;> rfl
+      simp only [this, Bool.and_false]
+      exact finished_false_eq _ a4
+    rw [h6] at hne
+    obtain ⟨X, x1, x2⟩ := ih ((t.restore s1).deliver c (rest ++ [eofPiece]) st) co' (st :: tr) h3 h4
+      (by rw [Inv, hlex]; exact a3) (by rw [hlex]; exact a4) heof rfl hne
+    refine ⟨st :: X, ?_, ?_⟩
+    · rw [h6, x1]
+      simp [PState.deliver, PState.restore]
+    · have hb : (st == Status.err) = false := by cases st <;> simp_all
+      rw [hlex] at x2
+      have hex : ((t.restore s1).deliver c (rest ++ [eofPiece]) st).exprs = s1.exprs := rfl
+      rw [hex] at x2
+      rw [callThen, h2]
+      simp only [hb, Bool.false_eq_true, ↓reduceIte]
+      rw [deliverRest_cons_eq]
+      have hni : (⟨s1.lex, s1.exprs, co'⟩ : PSt).newInput c = ⟨s1.lex.addNextStream c, s1.exprs, co'⟩ := rfl
+      rw [hni, x2]
+      simp
+
+theorem parseChunks_run (cs : List (List Char)) :
+    (parseChunks cs).status = statusOf (run (topLoop (fuelFor cs)) (initState LexState.init cs)).1 ∧
+    (parseChunks cs).trace = (run (topLoop (fuelFor cs)) (initState LexState.init cs)).2.trace := by
+  unfold parseChunks parseChunksFrom
+  cases run (topLoop (fuelFor cs)) (initState LexState.init cs) with
+  | mk fin s => cases fin <;> exact ⟨rfl, rfl⟩
+
+theorem parseBy_trace_cons (F : Nat) (p : PSt) (c : List Char) (rest : List (List Char))
+    (hF : fuelFor (c :: rest) ≤ F) (hne : (parseChunks (c :: rest)).status ≠ .err) :
+    (p.parseBy F .resetAdd (c :: rest)).1.trace = (parseChunks (c :: rest)).trace := by
+  obtain ⟨hst, htr⟩ := parseChunks_run (c :: rest)
+  have hne0 : (run (topLoop (fuelFor (c :: rest))) (initState LexState.init (c :: rest))).1 ≠ .stop .err := by
+    intro h; apply hne; rw [hst, h]; rfl
+  have hmono := Parser.run_fuel_mono (fuelFor (c :: rest)) F hF _ hne0
+  obtain ⟨a1, a2, a3, a4, a5, a6⟩ := resetAddNewInput_lex p c
+  have hl : (initState LexState.init (c :: rest)).lex = (p.resetAddNewInput c).lex := rfl
+  have hp : p.resetAddNewInput c = ⟨(initState LexState.init (c :: rest)).lex, (initState LexState.init (c :: rest)).exprs, none⟩ := rfl
+  obtain ⟨X, x1, x2⟩ := chunk_trace F rest (initState LexState.init (c :: rest)) none [] (by simp)
+    (.top F (Nat.le_refl _)) (by rw [Inv, hl]; exact a3) (by rw [hl]; exact a4) rfl rfl
+    (by simp only [progOf, erase_topLoop]; rw [hmono]; exact hne0)
+  simp only [progOf, erase_topLoop] at x1
+  rw [hmono] at x1
+  rw [parseBy_cons_callThen, hp, x2, htr, x1]
+  rfl
+
+/-- **The statuses of the intermediate calls are those the delivery model records** — for every
+parser state, every list of pieces and every fuel `F ≥ fuelFor cs`, whenever the parse of the text
+does not end in an error. -/
+theorem parseBy_trace (F : Nat) (p : PSt) (cs : List (List Char)) (hF : fuelFor cs ≤ F)
+    (hne : (parseChunks cs).status ≠ .err) :
+    (p.parseBy F .resetAdd cs).1.trace = (parseChunks cs).trace := by
+  cases cs with
+  | nil => exact parseBy_trace_cons F p [] [] hF hne
+  | cons c rest => exact parseBy_trace_cons F p c rest hF hne
+
 end ZygoVerif.Parser
